@@ -188,6 +188,179 @@ Proof.
     pose proof (lex_number_digits true _ rest H1 H3 Hf) as E. cbn [app] in E. cbn [app]. rewrite E, H2. reflexivity.
 Qed.
 
+(** ** every text in Go's float format is a number literal
+
+    encoding/json prints a finite float64 with strconv's 'f' or 'e' format (shortest digits that
+    round-trip) and cleans the exponent up: an optional '-', the digits of the integer part (no
+    superfluous leading zero), optionally '.' and fraction digits, optionally 'e', a sign and
+    exponent digits ("1.5", "1e+21", "1e-7", "123456789.125", "-0").  Which digits are chosen is
+    not modelled; the lemma is about every text of that shape. *)
+Definition all_digits (ds : bytes) : Prop := Forall (fun b => is_digit b = true) ds.
+Definition exp_sign_text (sg : option bool) : bytes :=
+  match sg with Some true => [45] | Some false => [43] | None => [] end.
+Definition exp_text (ex : option (option bool * bytes)) : bytes :=
+  match ex with None => [] | Some (sg, ed) => 101 :: exp_sign_text sg ++ ed end.
+Definition frac_text (fp : bytes) : bytes := match fp with [] => [] | _ => 46 :: fp end.
+Definition go_float_text (neg : bool) (ip fp : bytes) (ex : option (option bool * bytes)) : bytes :=
+  (if neg then [45] else []) ++ ip ++ frac_text fp ++ exp_text ex.
+Definition exp_value (ex : option (option bool * bytes)) : Z :=
+  match ex with
+  | None => 0%Z
+  | Some (sg, ed) => match sg with
+                     | Some true => Z.opp (Z.of_N (digits_value 0 ed))
+                     | _ => Z.of_N (digits_value 0 ed)
+                     end
+  end.
+Definition go_float_lit (neg : bool) (ip fp : bytes) (ex : option (option bool * bytes)) : lit :=
+  let sign (z : Z) : Z := if neg then Z.opp z else z in
+  match fp, ex with
+  | [], None => LInt (sign (Z.of_N (digits_value 0 ip)))
+  | _, _ => LFloat (sign (Z.of_N (digits_value 0 (ip ++ fp)))) (exp_value ex - Z.of_nat (List.length fp))%Z
+  end.
+Definition go_float_ok (ip fp : bytes) (ex : option (option bool * bytes)) : Prop :=
+  all_digits ip /\ integer_part_ok ip = true /\ all_digits fp /\
+  match ex with None => True | Some (_, ed) => all_digits ed /\ ed <> [] end.
+
+Lemma take_while_digits_stop ds c rest :
+  all_digits ds -> is_digit c = false -> take_while is_digit (ds ++ c :: rest) = (ds, c :: rest).
+Proof.
+  induction 1 as [|d r Hd Hr IH]; intro Hc; simpl.
+  - rewrite Hc. reflexivity.
+  - rewrite Hd, IH by auto. reflexivity.
+Qed.
+
+(** the three parts of [lex_number] after the sign, as functions of the remaining text *)
+Definition frac_part (r1 : bytes) : option (option bytes * bytes) :=
+  match r1 with
+  | b :: r => if b =? 46 then
+                let '(fp, r2) := take_while is_digit r in
+                match fp with [] => None | _ => Some (Some fp, r2) end
+              else Some (None, r1)
+  | [] => Some (None, r1)
+  end.
+Definition expo_part (r2 : bytes) : option (option Z * bytes) :=
+  match r2 with
+  | c :: r =>
+      if (c =? 101) || (c =? 69) then
+        let '(eneg, r') := match r with
+                           | s :: r' => if s =? 45 then (true, r') else if s =? 43 then (false, r') else (false, r)
+                           | [] => (false, r)
+                           end in
+        let '(ed, r3) := take_while is_digit r' in
+        match ed with
+        | [] => None
+        | _ => Some (Some (if eneg then Z.opp (Z.of_N (digits_value 0 ed)) else Z.of_N (digits_value 0 ed)), r3)
+        end
+      else Some (None, r2)
+  | [] => Some (None, r2)
+  end.
+Definition number_tail (sign : Z -> Z) (ip r1 : bytes) : option (lit * bytes) :=
+  if negb (integer_part_ok ip) then None else
+  match frac_part r1 with
+  | None => None
+  | Some (fp, r2) =>
+      match expo_part r2 with
+      | None => None
+      | Some (ex, r3) =>
+          if negb (delimited r3) then None else
+          match fp, ex with
+          | None, None => Some (LInt (sign (Z.of_N (digits_value 0 ip))), r3)
+          | _, _ =>
+              let fpd := match fp with Some d => d | None => [] end in
+              let e := match ex with Some e => e | None => 0%Z end in
+              Some (LFloat (sign (Z.of_N (digits_value 0 (ip ++ fpd)))) (e - Z.of_nat (List.length fpd))%Z, r3)
+          end
+      end
+  end.
+
+Lemma lex_number_unfold bs :
+  lex_number bs =
+  let '(neg, bs1) := match bs with
+                     | b :: r => if b =? 45 then (true, r) else (false, bs)
+                     | [] => (false, bs)
+                     end in
+  let '(ip, r1) := take_while is_digit bs1 in
+  number_tail (fun z => if neg then Z.opp z else z) ip r1.
+Proof. reflexivity. Qed.
+
+Lemma follow_head_facts rest : follow_ok rest ->
+  match rest with [] => True | b :: _ => is_digit b = false /\ b =? 46 = false /\ (b =? 101) || (b =? 69) = false end.
+Proof. destruct rest as [|b r]; auto. intros [->|[->|[->| ->]]]; repeat split; reflexivity. Qed.
+
+Lemma expo_go ex rest :
+  match ex with None => True | Some (_, ed) => all_digits ed /\ ed <> [] end -> follow_ok rest ->
+  expo_part (exp_text ex ++ rest) = Some (match ex with None => None | Some _ => Some (exp_value ex) end, rest).
+Proof.
+  intros Hex Hf. destruct ex as [[sg ed]|].
+  - destruct Hex as [Hd Hne]. unfold exp_text. cbn [app expo_part].
+    change ((101 =? 101) || (101 =? 69)) with true. cbv iota.
+    assert (Hed : exists d r, ed = d :: r /\ is_digit d = true).
+    { destruct ed as [|d r]; [contradiction|]. inversion Hd; subst. eauto. }
+    destruct Hed as [d [r [Eed Hdd]]].
+    assert (Hsplit : (match exp_sign_text sg ++ ed ++ rest with
+                      | s :: r' => if s =? 45 then (true, r') else if s =? 43 then (false, r') else (false, exp_sign_text sg ++ ed ++ rest)
+                      | [] => (false, exp_sign_text sg ++ ed ++ rest)
+                      end) = (match sg with Some true => true | _ => false end, ed ++ rest)).
+    { destruct sg as [[|]|]; cbn [exp_sign_text app]; try reflexivity.
+      rewrite Eed. cbn [app]. apply is_digit_spec in Hdd.
+      assert (d =? 45 = false) as -> by lia. assert (d =? 43 = false) as -> by lia. reflexivity. }
+    rewrite <- app_assoc. rewrite Hsplit. rewrite take_while_digits by auto.
+    rewrite Eed. rewrite <- Eed. destruct ed as [|d' r']; [contradiction|].
+    destruct sg as [[|]|]; reflexivity.
+  - cbn [exp_text app]. pose proof (follow_head_facts rest Hf) as H. destruct rest as [|b r]; [reflexivity|].
+    destruct H as [_ [_ H]]. cbn [expo_part]. rewrite H. reflexivity.
+Qed.
+
+Lemma number_tail_go (sign : Z -> Z) ip fp ex rest :
+  go_float_ok ip fp ex -> follow_ok rest ->
+  number_tail sign ip (frac_text fp ++ exp_text ex ++ rest) =
+  Some (match fp, ex with
+        | [], None => LInt (sign (Z.of_N (digits_value 0 ip)))
+        | _, _ => LFloat (sign (Z.of_N (digits_value 0 (ip ++ fp)))) (exp_value ex - Z.of_nat (List.length fp))%Z
+        end, rest).
+Proof.
+  intros [Hip [Hok [Hfp Hex]]] Hf. unfold number_tail. rewrite Hok. cbn [negb].
+  (* the fraction *)
+  assert (Hfrac : frac_part (frac_text fp ++ exp_text ex ++ rest)
+                  = Some (match fp with [] => None | _ => Some fp end, exp_text ex ++ rest)).
+  { destruct fp as [|d r].
+    - cbn [frac_text app]. destruct ex as [[sg ed]|].
+      + reflexivity.
+      + cbn [exp_text app]. pose proof (follow_head_facts rest Hf) as H. destruct rest as [|b r]; [reflexivity|].
+        destruct H as [_ [H _]]. cbn [frac_part]. rewrite H. reflexivity.
+    - cbn [frac_text app frac_part]. change (46 =? 46) with true. cbv iota.
+      change (d :: r ++ exp_text ex ++ rest) with ((d :: r) ++ exp_text ex ++ rest).
+      destruct ex as [[sg ed]|].
+      + change ((d :: r) ++ exp_text (Some (sg, ed)) ++ rest) with ((d :: r) ++ 101 :: ((exp_sign_text sg ++ ed) ++ rest)).
+        rewrite take_while_digits_stop by (auto; reflexivity). reflexivity.
+      + change ((d :: r) ++ exp_text None ++ rest) with ((d :: r) ++ rest). rewrite take_while_digits by auto. reflexivity. }
+  rewrite Hfrac. rewrite (expo_go ex rest Hex Hf). rewrite (follow_delimited rest Hf). cbn [negb].
+  destruct fp as [|d r], ex as [[sg ed]|]; reflexivity.
+Qed.
+
+Theorem lex_number_go neg ip fp ex rest :
+  go_float_ok ip fp ex -> follow_ok rest ->
+  lex_number (go_float_text neg ip fp ex ++ rest) = Some (go_float_lit neg ip fp ex, rest).
+Proof.
+  intros Hok Hf. rewrite lex_number_unfold. unfold go_float_text, go_float_lit.
+  destruct Hok as [Hip [Hiok [Hfp Hex]]].
+  assert (Hhead : exists d r, ip = d :: r /\ is_digit d = true).
+  { destruct ip as [|d r]; [discriminate|]. inversion Hip; subst. eauto. }
+  destruct Hhead as [d [r [Eip Hd]]].
+  assert (Htw : take_while is_digit (ip ++ frac_text fp ++ exp_text ex ++ rest) = (ip, frac_text fp ++ exp_text ex ++ rest)).
+  { destruct fp as [|f fr].
+    - cbn [frac_text app]. destruct ex as [[sg ed]|].
+      + cbn [exp_text app]. apply take_while_digits_stop; auto.
+      + cbn [exp_text app]. apply take_while_digits; auto.
+    - cbn [frac_text app]. apply take_while_digits_stop; auto. }
+  destruct neg.
+  - rewrite <- !app_assoc. cbn [app]. change (45 =? 45) with true. cbv iota.
+    rewrite Htw. apply (number_tail_go (fun z => Z.opp z)); unfold go_float_ok; auto.
+  - rewrite <- !app_assoc. subst ip. cbn [app] in *.
+    apply is_digit_spec in Hd. assert (d =? 45 = false) as -> by lia.
+    rewrite Htw. apply (number_tail_go (fun z => z)); unfold go_float_ok; auto.
+Qed.
+
 (** ** strings: the hard lemma *)
 Definition cp_ok (c : N) : Prop := c < 65536 /\ is_surrogate c = false.
 
@@ -308,10 +481,19 @@ Section Roundtrip.
   (** what the theorem covers: strings of code points up to U+FFFF other than surrogates (and
       other than the marks of invalid UTF-8 bytes); floats with an integral value, which print as
       integers; no input object values (see [default_roundtrip_partial]) *)
+  (** the value part of a float default — does the decimal Go printed round to the float64? — is
+      not proved (strconv's digit generation is not modelled); the check evaluates it on every
+      generated default *)
+  Definition float_lit_rounds (l : lit) (m e : Z) : bool :=
+    match l with LInt z => rounds_to z 0 m e | LFloat n e10 => rounds_to n e10 m e | _ => false end.
+
   Fixpoint printable (v : gval) : Prop :=
     match v with
     | GString s => Forall cp_ok s
-    | GFloat m e txt => exists z, txt = Z_decimal z /\ rounds_to z 0 m e = true
+    | GFloat m e txt =>
+        (exists z, txt = Z_decimal z /\ rounds_to z 0 m e = true) \/
+        (exists neg ip fp ex, go_float_ok ip fp ex /\ txt = go_float_text neg ip fp ex /\
+                              float_lit_rounds (go_float_lit neg ip fp ex) m e = true)
     | GList vs => (fix all (l : list gval) : Prop := match l with [] => True | x :: r => printable x /\ all r end) vs
     | GMap kvs => (fix all (l : list (name * gval)) : Prop := match l with [] => True | kv :: r => printable (snd kv) /\ all r end) kvs
     | _ => True
@@ -582,7 +764,36 @@ Section Roundtrip.
         destruct (k =? 1) eqn:E1.
         * rewrite Hsc. exists (CInt z). split; auto. simpl. apply Z.eqb_refl.
         * destruct (k =? 2) eqn:E2; [exfalso; lia|]. rewrite Hsc. exists (CInt z). split; auto. simpl. apply Z.eqb_refl.
-    - (* Float with an integral value *)
+    - (* Float: any text of Go's format *)
+      destruct Hp as [Hp|[neg [ip [fp [ex [Hok [-> Hr]]]]]]].
+      2:{ set (txt := go_float_text neg ip fp ex). set (l := go_float_lit neg ip fp ex) in *.
+          assert (Hhd : exists b0 r0, txt = b0 :: r0 /\ (is_digit b0 = true \/ b0 = 45)).
+          { unfold txt, go_float_text. destruct Hok as [Hip [Hiok _]]. destruct neg.
+            - eexists; eexists; split; [reflexivity|right; reflexivity].
+            - destruct ip as [|d0 r1]; [discriminate|]. inversion Hip; subst. cbn [app]. eexists; eexists; split; [reflexivity|left; auto]. }
+          destruct Hhd as [b0 [r0 [Etxt Hb0]]].
+          assert (Hleaf : is_leaf l) by (unfold l, go_float_lit; destruct fp, ex; exact I).
+          exists txt, l. unfold good_result. split; [exact Hm|].
+          split.
+          { rewrite Etxt. unfold head_ok. destruct Hb0 as [Hb0| ->]; [apply is_digit_spec in Hb0; unfold is_ignored; repeat split; lia | repeat split; try reflexivity; lia]. }
+          split; [rewrite Etxt; simpl; lia|]. split.
+          + intros fuel rest Hf Hfu. simpl in Hfu. destruct (fuel_S fuel Hfu) as [f ->].
+            pose proof (lex_number_go neg ip fp ex rest Hok Hf) as L. fold txt in L. fold l in L.
+            rewrite Etxt in *. cbn [app] in *. cbn [pvalue].
+            assert (Hi : is_ignored b0 = false) by (destruct Hb0 as [Hb0| ->]; [apply is_digit_spec in Hb0; unfold is_ignored; lia | reflexivity]).
+            rewrite skip_ignored_id by exact Hi.
+            assert (b0 =? 91 = false) as -> by (destruct Hb0 as [Hb0| ->]; [apply is_digit_spec in Hb0; lia | reflexivity]).
+            assert (b0 =? 123 = false) as -> by (destruct Hb0 as [Hb0| ->]; [apply is_digit_spec in Hb0; lia | reflexivity]).
+            assert (b0 =? 34 = false) as -> by (destruct Hb0 as [Hb0| ->]; [apply is_digit_spec in Hb0; lia | reflexivity]).
+            assert (is_name_start b0 = false) as -> by (destruct Hb0 as [Hb0| ->]; [apply is_digit_spec in Hb0; unfold is_name_start; lia | reflexivity]).
+            assert (is_digit b0 || (b0 =? 45) = true) as -> by (destruct Hb0 as [Hb0| ->]; [rewrite Hb0; reflexivity | reflexivity]).
+            exact L.
+          + intro inl. rewrite (coerce_leaf_at l Hleaf t inl tn Hs). unfold coerce_leaf. rewrite Hl. unfold coerce_scalar.
+            set (k := if b then scalar_kind_of tn else 0) in *.
+            unfold float_lit_rounds in Hr.
+            destruct l as [z|n0 e0| | | | | |]; try discriminate.
+            * assert (k =? 1 = false) as -> by lia. rewrite Hsc. exists (CDec z 0). split; auto.
+            * rewrite Hsc. exists (CDec n0 e0). split; auto. }
       destruct Hp as [z [-> Hr]].
       destruct (Z_decimal_head z) as [Hh Hlen].
       exists (Z_decimal z), (LInt z). unfold good_result. split; [exact Hm|]. split; [exact Hh|].
